@@ -1,0 +1,17 @@
+//go:build verif
+
+// Machine-checked contracts for package clightning (comment-only; see /verif/DESIGN.md §2.5).
+
+package clightning
+
+//@ func buildDirectClaimRoute
+//@ property C04 C05 C24
+//@ requires bolt11 != nil
+//@ ensures @C04 limit: (result1 == nil && maxTotalCLTVDelta != 0) ==> (bolt11.MinFinalCltvExpiry >= 0 && mi(bolt11.MinFinalCltvExpiry) + 1 <= mi(maxTotalCLTVDelta))
+//@ ensures @C04,C05 delay: result1 == nil ==> (len(result0) == 1 && result0[0].Delay == uint32(bolt11.MinFinalCltvExpiry + 1))
+//@ ensures @C05 delay-exact: (result1 == nil && bolt11.MinFinalCltvExpiry >= 0 && bolt11.MinFinalCltvExpiry <= 504) ==> mi(result0[0].Delay) == mi(bolt11.MinFinalCltvExpiry) + 1
+//@ ensures @C24 single-hop: result1 == nil ==> len(result0) == 1
+//@ ensures @C24 to-payee: result1 == nil ==> result0[0].Id == bolt11.Payee
+//@ ensures @C24 exact-amount: result1 == nil ==> result0[0].AmountMsat == bolt11.AmountMsat
+//@ ensures @C24 swap-channel: result1 == nil ==> result0[0].ShortChannelId == strings.ReplaceAll(scid, ":", "x")
+//@ ensures @C04 err-nil-route: result1 != nil ==> len(result0) == 0
